@@ -222,9 +222,9 @@ def make_spec(bigsize=9000, nmsg=3, ndocs=4):
     spec.append({"p": "docs/empty.txt", "k": "file", "d": ""})
     spec.append({"p": "letters", "k": "dir"})
     spec.append({"p": "letters/fromdesk.txt", "k": "file",
-                 "d": "From the desk of the admin\nDear all,\nnothing new.\n"})
+                 "d": "From the desk of the gopher administrator, with greetings to everybody\nDear all,\nnothing new.\n"})
     spec.append({"p": "letters/fromlong.txt", "k": "file",
-                 "d": "From " + "administrator-at-long-host.xy" + "\nnot a mailbox either\n"})
+                 "d": "From " + "the-gopher-administrator-at-a-rather-long-host-name.example.org" + "\nnot a mailbox either\n"})
     for i in range(ndocs):
         spec.append({"p": "docs/doc%d.txt" % i, "k": "file", "d": "doc %d\n" % i})
     spec.append({"p": "docs/doc0.txt.abstract", "k": "file", "d": "abstract of doc0\n"})
